@@ -508,16 +508,14 @@ fn lex_source_into_buffer<'source: 'tokens, 'tokens: 'buffer, 'buffer>(
 						iter.next();
 						location.end += 1;
 						let mut num_digits = 0;
-						let mut value = 0;
+						let mut value: u128 = 0;
+						let mut has_overflowed = false;
 						while let Some(&(_, y)) = iter.peek()
 						{
-							if num_digits > 128
-							{
-								break;
-							}
-							else if y == b'0'
+							if y == b'0'
 							{
 								num_digits += 1;
+								has_overflowed |= (value >> 127) != 0;
 								value <<= 1;
 
 								iter.next();
@@ -526,6 +524,7 @@ fn lex_source_into_buffer<'source: 'tokens, 'tokens: 'buffer, 'buffer>(
 							else if y == b'1'
 							{
 								num_digits += 1;
+								has_overflowed |= (value >> 127) != 0;
 								value <<= 1;
 								value |= 0b1;
 
@@ -542,7 +541,7 @@ fn lex_source_into_buffer<'source: 'tokens, 'tokens: 'buffer, 'buffer>(
 								break;
 							}
 						}
-						if num_digits > 128
+						if has_overflowed
 						{
 							Err(LexingError::InvalidIntegerLength)
 						}
